@@ -328,7 +328,14 @@ pub fn gen_knobs(rng: &mut Rng, m: Meth) -> Knobs {
     k
 }
 
+/// number of times `gen_admissible` gave up (0 on a healthy tree)
+pub static GEN_GAVE_UP: std::sync::atomic::AtomicU64 = std::sync::atomic::AtomicU64::new(0);
+
 /// Draw base scenarios until the pilot finishes successfully within the crossing bound.
+/// On a healthy tree a handful of draws suffice (the rejection rate is a few per cent). On a tree
+/// where some method never finishes a plain run the loop would never end, so it is bounded: after
+/// 40 rejected draws the last scenario is returned with a two-point placeholder pilot (the pilot is
+/// a placement aid only; the scenario is then checked like any other).
 pub fn gen_admissible(
     rng: &mut Rng,
     m: Meth,
@@ -337,6 +344,7 @@ pub fn gen_admissible(
     max_cross: u64,
     tweak: &mut dyn FnMut(&mut Rng, &mut Scenario),
 ) -> (Scenario, Pilot) {
+    let mut draws = 0;
     loop {
         let mut sc = gen_base(rng, m, class, entry);
         tweak(rng, &mut sc);
@@ -345,6 +353,20 @@ pub fn gen_admissible(
             if p.success && sane && p.n_ode <= max_cross && p.grid.len() >= 2 {
                 return (sc, p);
             }
+        }
+        draws += 1;
+        if draws >= 40 || crate::run::HANGS.load(std::sync::atomic::Ordering::Relaxed) > 200 {
+            GEN_GAVE_UP.fetch_add(1, std::sync::atomic::Ordering::Relaxed);
+            let xe = if sc.xend.is_finite() { sc.xend } else { sc.x0 + sc.dir() };
+            let p = Pilot {
+                grid: vec![sc.x0, xe],
+                ys: vec![sc.y0.clone(), sc.y0.clone()],
+                cb_ode_calls: vec![1, 2],
+                n_ode: 2,
+                success: false,
+                fmax: 0.0,
+            };
+            return (sc, p);
         }
     }
 }
